@@ -77,9 +77,31 @@ func runDeclCheck(c *Ctx, r *Reporter) {
 					continue
 				}
 				sites++
+				// `if loopVar != nil { scope.set(loopVar.Name, loopVar) }`: the variable is the one built on the path
+				// that contributes the non-nil value, and control came through that path's last block
+				setVar := call.Call.Args[2]
+				atBlock := call.Block()
+				var at ssa.Instruction = call
+				if pv, via := guardedPhiValue(setVar, call); pv != nil && len(via.Instrs) > 0 {
+					if u, ok := name.(*ssa.UnOp); ok {
+						if fa, ok := u.X.(*ssa.FieldAddr); ok && fa.X == setVar {
+							if _, f := fieldAddrInfo(fa); f == "Name" {
+								name = nil // the name of the phi is the name of the variable it stands for
+							}
+						}
+					}
+					setVar, atBlock, at = pv, via, via.Instrs[len(via.Instrs)-1]
+				}
 				verdict, why := false, "no call of validateVarDecl for the variable whose name is set dominates this scope.set: a redeclaration, a shadowed built-in global or a function name enters the scope unchecked"
 				for _, v := range vals {
-					if !instrDominates(v, call) || !nameOfVar(name, v.Call.Args[1]) {
+					if !instrDominates(v, at) {
+						continue
+					}
+					if name == nil {
+						if v.Call.Args[1] != setVar {
+							continue
+						}
+					} else if !nameOfVar(name, v.Call.Args[1]) {
 						continue
 					}
 					// is the answer used?  allowUnderscore=false marks a declaration inside a block
@@ -88,7 +110,7 @@ func runDeclCheck(c *Ctx, r *Reporter) {
 						verdict, why = true, "parameter: validated before it is set (a failed validation records an error, the program is rejected)"
 						break
 					}
-					if onTrueEdgeOf(v, call.Block()) {
+					if onTrueEdgeOf(v, atBlock) {
 						verdict, why = true, "declaration: set only on the edge where validateVarDecl answered true"
 						break
 					}
@@ -103,6 +125,36 @@ func runDeclCheck(c *Ctx, r *Reporter) {
 	}
 
 	scopeNameTests(p, pkg, r)
+	// the loop variable of a for statement is in scope in the body only: the range operands are parsed (and, in the
+	// evaluator, evaluated) before it exists, so `for x := range x` iterates over the enclosing x
+	if fd := FindFunc(pkg, "(*parser).parseForStatement"); fd != nil {
+		sf := p.SSAFunc(fd.Obj)
+		var sets, lists []*ssa.Call
+		for _, b := range sf.Blocks {
+			for _, ins := range b.Instrs {
+				if call, ok := ins.(*ssa.Call); ok && call.Call.StaticCallee() != nil {
+					switch call.Call.StaticCallee() {
+					case setSSA:
+						sets = append(sets, call)
+					default:
+						if call.Call.StaticCallee().Name() == "parseExprList" {
+							lists = append(lists, call)
+						}
+					}
+				}
+			}
+		}
+		good := len(sets) > 0 && len(lists) == 1
+		for _, st := range sets {
+			if len(lists) != 1 || !instrDominates(lists[0], st) {
+				good = false
+			}
+		}
+		r.Check(good, fd.QName()+"#loopvar-after-range", p.Rel(fd.Decl.Pos()), "the loop variable enters the scope after the range operands have been parsed",
+			"the loop variable is put into the scope before the range operands are parsed: `x := [1 2 3]` `for x := range x` then refers to the loop variable itself (type none) and is rejected, while the evaluator evaluates the operand in the enclosing scope")
+	} else {
+		r.Undecided("(*parser).parseForStatement not found")
+	}
 
 	// --- clause validator
 	type test struct {
